@@ -72,8 +72,21 @@ def run(res, tier, seed, shard, nshards):
         for behaviour in ("silent", "slow-1.5x", "slow-3.2x", "prompt"):
             for to in (None, interval * 0.4):
                 jobs.append(("periodic", interval, to, behaviour))
+    for interval, to in ((1.0, 0.4), (2.0, 0.5), (0.6, 0.25)):
+        for first in ("eof", "server-close-then-second-run", "refused-then-ok"):
+            jobs.append(("second-use", interval, to, first))
+    for interval, to in ((1.0, 0.4), (2.0, 0.9), (3.0, 1.0)):
+        for lat in (0.0, 1e-3, to / 2):
+            for traffic in ("none", "periodic"):
+                jobs.append(("interleave", interval, to, lat, traffic))
     for ji, job in enumerate(jobs):
         if ji % nshards != shard:
+            continue
+        if job[0] == "second-use":
+            second_use_case(res, W, rng, *job[1:])
+            continue
+        if job[0] == "interleave":
+            interleave_case(res, W, rng, *job[1:], n=(12 if quick else 150), seed=seed * 1000 + ji)
             continue
         if job[0] == "silent":
             for tie in ("loop-first", "ping-first"):
@@ -111,18 +124,25 @@ def traffic_script(kind, phase, to, interval, until):
     return script
 
 
-def execute(plan, run_kwargs, tie, horizon):
+def execute(plan, run_kwargs, tie, horizon, strategy=None, second_run_kwargs=None, reconnect=None):
     out = {}
 
     def scen():
         H.reset_process_state()
         run = appsim.AppRun(plan, last_repeats=False)
         out["run"] = run
-        run.run_forever(**run_kwargs)
+        kw = dict(run_kwargs)
+        if reconnect:
+            kw["reconnect"] = reconnect
+        run.run_forever(**kw)
         out["end"] = sched.CURRENT.now
+        if second_run_kwargs is not None:
+            out["first_trace_len"] = len(run.trace)
+            run.run_forever(**second_run_kwargs)
+            out["end2"] = sched.CURRENT.now
         return run
 
-    S = sched.Sched(strategy=PingFirst() if tie == "ping-first" else sched.NonPreemptive(), horizon=horizon, watchdog=60)
+    S = sched.Sched(strategy=strategy or (PingFirst() if tie == "ping-first" else sched.NonPreemptive()), horizon=horizon, watchdog=60)
     failure = None
     try:
         S.run(scen)
@@ -376,3 +396,75 @@ def periodic_case(res, W, rng, interval, to, behaviour):
             bad("too-few-pings", f"{len(srv.pings)} pings in {dur}s (interval {interval}): {[p[0] for p in srv.pings]}")
     else:
         check_pings(res, bad, srv, interval, b"pp", None)
+
+
+def second_use_case(res, W, rng, interval, to, first):
+    """keepalive must work on every connection of an application object, not only on its first one: after a
+    reconnect, and in a second run_forever(), a silent peer is still detected within the bound"""
+    kw = dict(ping_interval=interval, ping_timeout=to, ping_payload="ka")
+    silent = dict(outcome="ok", script=[], pong=None)
+    if first == "eof":
+        plan = [dict(outcome="ok", script=[(1.3 * interval, "eof")], pong=0.0), silent, dict(outcome="ok", script=[(0.5, "close", b"")])]
+        run, out, failure, S = execute(plan, kw, "loop-first", 60 * interval + 60, reconnect=0.5)
+        idx = 1
+    elif first == "refused-then-ok":
+        plan = [dict(outcome="refused"), silent, dict(outcome="ok", script=[(0.5, "close", b"")])]
+        run, out, failure, S = execute(plan, kw, "loop-first", 60 * interval + 60, reconnect=0.5)
+        idx = 0
+    else:
+        plan = [dict(outcome="ok", script=[(2.5 * interval, "close", b"\x03\xe8")], pong=0.0), silent]
+        run, out, failure, S = execute(plan, kw, "loop-first", 60 * interval + 60, second_run_kwargs=kw)
+        idx = 1
+    res.case(("second-use", interval, to, first), nontrivial=True)
+    res.count("second_use_runs")
+    case = {"kind": "second-use", "interval": interval, "timeout": to, "first_connection": first}
+
+    def bad(kind, detail, **kw_):
+        res.violation(kind, f"keepalive on a later connection (interval={interval} timeout={to}, first: {first}): {detail}", case, first=first, **kw_)
+    if run is None:
+        res.inconc(f"second-use case did not start: {failure}")
+        return
+    srv = [s for s in run.servers if s.plan.get("pong", 0) is None]
+    if not srv:
+        bad("later-connection-missing", f"the silent connection was never made; attempts {[(a[0], a[1]) for a in run.attempts]}; failure {failure}")
+        return
+    srv = srv[0]
+    if not srv.pings:
+        bad("no-pings", f"no ping reached the peer of the later connection (opened t={srv.opened_at}); run state: {type(failure).__name__ if failure else 'ended'}")
+        return
+    P = srv.pings[0][0]
+    touts = [(t, a[0]) for (t, n, a, ci, ac) in run.trace if n == "on_error" and isinstance(a[0], W.WebSocketTimeoutException) and t >= srv.opened_at]
+    # with reconnect the loss may not be reported to on_error (recorded, not judged): use the next attempt / transport close as the detection time
+    detect = touts[0][0] if touts else (srv.conn.closed_at if srv.conn.client_closed else None)
+    if first != "server-close-then-second-run" and not touts:
+        later = [a for a in run.attempts if a[0] > srv.opened_at + 1e-9]
+        detect = (later[0][0] - 0.5) if later else detect
+    if detect is None:
+        bad("never-detected", f"first unanswered ping at t={P}; the silent peer was never detected ({type(failure).__name__ if failure else 'run ended'})", detected=False)
+        return
+    if detect > P + 2 * to + 1e-6:
+        bad("detected-late", f"first unanswered ping at t={P}, detected at t={detect} (> P + 2*timeout = {P + 2 * to})", detected=True)
+    check_pings(res, bad, srv, interval, b"ka", None)
+    res.count("detection_latency_checked")
+
+
+def interleave_case(res, W, rng, interval, to, lat, traffic, n, seed):
+    """a responsive peer under many interleavings of the ping thread and the loop at synchronisation / IO points
+    (seeded random schedules): never reported"""
+    dur = 8 * interval
+    script = traffic_script(traffic, 0.0, to, interval, dur) + [(dur, "close", b"\x03\xe8")]
+    for i in range(n):
+        plan = [dict(outcome="ok", script=list(script), pong=lat)]
+        st = sched.RandomStrategy((seed << 12) ^ i, p_switch=0.5)
+        run, out, failure, S = execute(plan, dict(ping_interval=interval, ping_timeout=to, ping_payload="ka"), "random", dur + 100, strategy=st)
+        res.case(("interleave", interval, to, lat, traffic, tuple(S.decisions)), nontrivial=S.switches > 0)
+        res.count("interleaving_runs")
+        case = {"kind": "interleave", "interval": interval, "timeout": to, "latency": lat, "traffic": traffic, "decisions": list(S.decisions)[:200]}
+        if run is None or failure is not None:
+            res.violation("no-return", f"interleaving run interval={interval} timeout={to} latency={lat}: {failure}", case, latency_class="interleave")
+            continue
+        errs = [(t, a[0]) for (t, nme, a, ci, ac) in run.trace if nme == "on_error"]
+        if errs:
+            t, e = errs[0]
+            res.violation("responsive-peer-reported", f"schedule #{i}: on_error({type(e).__name__}: {e}) at t={t} although every ping (interval {interval}, timeout {to}) was answered after {lat}s",
+                          case, latency_class="interleave", error=type(e).__name__, traffic=traffic)
